@@ -33,7 +33,7 @@ func addends(t *term) map[string]int64 {
 // getterShape describes a "found iff id != -1" accessor, possibly delegating
 // to a helper with the same shape.
 type getterShape struct {
-	idCall   *ssa.Call     // the id lookup on the key (in f or in the helper it delegates to)
+	idCall   *ssa.Call // the id lookup on the key (in f or in the helper it delegates to)
 	idFn     *ssa.Function
 	cond     string        // normalised not-found condition on the id
 	notFound *ssa.Return   // in f
